@@ -473,6 +473,31 @@ fn build_case(c: &Case) -> (w::PositionLookup, Expect) {
                 }
             }
         }
+        // class-pair rules whose class sets overlap in the INTERIOR of a contiguous run of another
+        // class (e.g. {15,30} and {10..=20}): sequences of <= 3 distinct rules out of
+        // 2 first classes x 6 second classes; a = the sequence in base 13 (digit 0 = end)
+        "class_pairs_interior" => {
+            let firsts: [BTreeSet<u16>; 2] = [[1, 2].into(), [3, 4].into()];
+            let seconds: [BTreeSet<u16>; 6] = [[15, 30].into(), (10..=20).collect(), [12, 13].into(), [15].into(), [30, 31].into(), [9, 10].into()];
+            let mut b = PairPosBuilder::default();
+            let mut m = PairModel::default();
+            let mut code = c.a;
+            let mut n = 0;
+            while code % 13 != 0 {
+                let r = (code % 13 - 1) as usize;
+                code /= 13;
+                // variant b = 1 swaps the roles: the interval-like sets are FIRST classes
+                let (c1, c2) = if c.b == 0 { (&firsts[r / 6], &seconds[r % 6]) } else { (&seconds[r % 6], &firsts[r / 6]) };
+                let (e, (b1, b2)) = rule_values((n % 2) as u8, 60 + r as u32, n);
+                let s1: IntSet<GlyphId16> = c1.iter().map(|g| gid(*g)).collect();
+                let s2: IntSet<GlyphId16> = c2.iter().map(|g| gid(*g)).collect();
+                b.insert_classes(s1, b1, s2, b2);
+                m.add_class_rule(c1, c2, e);
+                n += 1;
+            }
+            let subs = b.build(&mut vs);
+            (w::PositionLookup::Pair(wl::Lookup::new(wl::LookupFlag::empty(), subs)), Expect::Pair(m))
+        }
         // marks 30,31,33: absent / class "a" / class "b" (base 3); bases 40,42: subset of {a,b}
         // (base 4 each, restricted to classes that have a mark); variant b = anchor style
         "mark_base" => {
@@ -942,6 +967,24 @@ pub fn part_b(run: &Run) {
         }
     }
     run_cases(run, &cases, "PairPosBuilder class pairs: 3^9 rule sets over 3x3 (overlapping) classes x 2 insertion orders x 3 preceding glyph-pair sets");
+    // class sets overlapping in the interior of a contiguous run of another class
+    let mut cases = vec![];
+    for r1 in 1..=12u64 {
+        for variant in 0..2 {
+            cases.push(Case::small("class_pairs_interior", r1, variant));
+        }
+        for r2 in (1..=12u64).filter(|r| *r != r1) {
+            for variant in 0..2 {
+                cases.push(Case::small("class_pairs_interior", r1 + 13 * r2, variant));
+            }
+            for r3 in (1..=12u64).filter(|r| *r != r1 && *r != r2) {
+                for variant in 0..2 {
+                    cases.push(Case::small("class_pairs_interior", r1 + 13 * r2 + 169 * r3, variant));
+                }
+            }
+        }
+    }
+    run_cases(run, &cases, "PairPosBuilder class pairs with interior overlap: all sequences of <=3 distinct rules over classes {1,2},{3,4} x {15,30},{10..=20},{12,13},{15},{30,31},{9,10}, in both roles (first/second class)");
     let mut cases = vec![];
     for code in 0..(27 * 16) {
         for style in 0..3 {
